@@ -118,6 +118,8 @@ type Report struct {
 	Asserts      int
 	AssertsTriv  int
 	Assumes      int
+	Confirms     int // thorough: unsat verdicts put to the second solver
+	Confirmed    int // ... and answered unsat by it as well
 	Violations   []*Violation
 	Covers       map[string]bool
 	Inconclusive map[string]int
@@ -220,6 +222,8 @@ func (e *Engine) Explore(harness string, workers int, solvers []string, queryMs 
 				rep.Asserts += x.asserts
 				rep.AssertsTriv += x.assertsTriv
 				rep.Assumes += x.assumes
+				rep.Confirms += x.confirms
+				rep.Confirmed += x.confirmed
 				switch status {
 				case "done", "stop":
 					rep.Paths++
